@@ -506,7 +506,23 @@ class Check:
                     self.broken.append("non-standard axioms: %s" % r["foreign_axioms"])
         merged["axioms"] = sorted(merged["axioms"])
         self.proof = merged
+        if self.tier == "thorough" and merged["ok"] and os.environ.get("VERIF_COQCHK", "1") != "0":
+            self.coqchk(pids)
         return merged["ok"]
+
+    def coqchk(self, pids):
+        """thorough tier: re-check the compiled property files and everything they depend on with the stand-alone
+        checker coqchk and record the axioms it reports (all loaded libraries included)."""
+        libs = ["FV.Props.Properties_%s" % p for p in pids]
+        rc, o, e = sh(["coqchk", "-silent", "-o", "-Q", ".", "FV"] + libs, cwd=COQ, timeout=2400)
+        txt = o + e
+        m = re.search(r"\* Axioms:\s*(.*?)\n\s*\n", txt, re.S)
+        ax = m.group(1).strip() if m else "?"
+        names = [a.strip().split()[0] for a in ax.split("\n") if a.strip()] if ax not in ("<none>", "?") else []
+        foreign = [a for a in names if a not in STD_AXIOMS and a.split(".")[-1] not in STD_AXIOMS]
+        self.extra["coqchk"] = {"rc": rc, "axioms": ax[:2000], "libraries": libs}
+        if rc != 0 or ax == "?" or foreign:
+            self.broken.append("coqchk %s: rc=%s axioms=%s" % (" ".join(libs), rc, ax[:300]))
 
     def gen_obligation(self, name, ok, detail=""):
         self.gen_obligations += 1
